@@ -1908,7 +1908,9 @@ def junk_sig_batches(rng, tier):
     tx = SynTx(1, [[b"\x55" * 32, 0, b"", 0xFFFFFFFF, []]], [[1, b"\x51"]], 0)
     k1, k2 = sec(0, "c"), sec(1, "c")
     for junk_b in ONE_BYTE_JUNK:
-        script = multisig_script(2, [k1, k2]) + b"\x91"
+        # `OP_v DROP` decoy in front: the minimal push of the junk blob v occurs in the script for every v
+        decoy = bytes([0x4F if junk_b[0] == 0x81 else 0x50 + junk_b[0], 0x75])
+        script = decoy + multisig_script(2, [k1, k2]) + b"\x91"
         code = core_find_and_delete(script, push_raw(junk_b))
         sg = make_sig(rng, _digest_f(tx, 0, 0, code, "B"), 1, 1, "valid")
         for fl in (FL["P2SH"] | FL["DERSIG"], 0, FL["NULLFAIL"], FL["STRICTENC"]):
